@@ -40,6 +40,9 @@ def run(ctx):
     ctx.rule("R10.k", "constructor model: Parameters._setup_params (with _instantiate_param) interpreted abstractly on 288 combinations of keywords x reference modes (plain value / reference with a value / reference without a value yet / asynchronous reference) x an unknown keyword: own copy of every instantiate=True default and pinned constants before any keyword is applied (and still there when a keyword assigns nothing), exactly the specified assignments, every reference and only references recorded", floor=1)
     ctx.rule("R10.n", "rx cache model (shared with R09.i): under every short history of reads, input/argument updates and events of a node's own Trigger (a superseded asynchronous evaluation "
                       "reporting in), a read gives the result for the CURRENT inputs: an own-trigger event neither invalidates nor validates the node", floor=1)
+    ctx.rule("R10.y", "async model: Parameters._async_ref interpreted abstractly with the suspension supplied at the `await` (initialized x no / this / an older task registered x the awaitable "
+                      "completes / raises Skip / is cancelled by a plain assignment / by a newer reference, 24 cases): the task owns the entry before it suspends, an older task is cancelled, a result is "
+                      "applied only when nothing superseded it, the newer task's registration is left alone, the own registration is removed on every way out", floor=1)
     ctx.rule("R10.j", "the scope that marks the sync's own writes replaces the syncing set by a fresh one and restores the saved one: it never mutates in place the set object it saved "
                       "(otherwise the marker outlives the scope and every later plain assignment looks like a sync write that must not cancel)", floor=1)
     ctx.not_decided += ["the asyncio scheduler's cancellation semantics (trusted: Task.cancel() raises at the await, so no later write happens)",
@@ -252,6 +255,8 @@ def run(ctx):
     syncing_set_replaced(ctx, "R10.j")
 
     # model-level rule, run last
+    from checks import async_model
+    async_model.report(ctx, "R10.y")
     from checks import rx_model
     rx_model.report(ctx, "R10.n")
     from checks import setter_model
